@@ -105,13 +105,19 @@ TReset ==
   /\ LET r == Rec[l]
          p == EvPos(r)
          q == ReadFen(r.text)       \* the standard text the harness handed to the library
-     IN \* standard text understood: same position, en-passant square kept whenever it can be
-        \* used and otherwise kept or dropped (the don't-care of the en-passant field)
-        /\ (PROP \in {"C06", "C07"}) => (/\ [q EXCEPT !.ep = p.ep] = p
-                                         /\ p.ep \in FenEpAllowed(q, q.ep)) = TRUE
-        /\ pos' = p /\ ld' = q.ep /\ dom' = Valid(p)
-        /\ (IF Valid(p) THEN Obs(r, p, p, q.ep, FALSE) ELSE TRUE) = TRUE
-        /\ hmap' = HmapAfter(r, p)
+         \* standard text understood: same position, en-passant square kept whenever it can be
+         \* used and otherwise kept or dropped (the don't-care of the en-passant field)
+         okread == ([q EXCEPT !.ep = p.ep] = p) /\ (p.ep \in FenEpAllowed(q, q.ep))
+         \* the position the text denotes, read by the specification alone (an en-passant square nobody can use
+         \* is dropped: legal moves, status, checkers and pins do not depend on it)
+         qd == [q EXCEPT !.ep = IF q.ep # NoSq /\ EpCaptures(q) # {} THEN q.ep ELSE NoSq]
+         \* what is judged: the library's reading when it is an admissible one, else the specification's -
+         \* a misread text must not take the oracle along with it
+         j == IF okread THEN p ELSE qd
+     IN /\ (PROP \in {"C06", "C07"}) => (okread = TRUE)
+        /\ pos' = j /\ ld' = q.ep /\ dom' = Valid(j)
+        /\ (IF Valid(j) THEN Obs(r, j, j, q.ep, FALSE) ELSE TRUE) = TRUE
+        /\ hmap' = HmapAfter(r, j)
 
 TMove ==
   /\ IsEvent("Move")
